@@ -5,156 +5,201 @@ package sym
 
 import (
 	"fmt"
+	"go/token"
 	"go/types"
 	"strings"
 
 	"golang.org/x/tools/go/ssa"
 )
 
-var zzIntrinsics = map[string]externalFn{
-	"zzString": func(fr *frame, a []value) value {
-		return fr.i.newInputString(a[0].(string), int(asInt64(a[1])), "")
-	},
-	"zzStringIn": func(fr *frame, a []value) value {
-		return fr.i.newInputString(a[0].(string), int(asInt64(a[1])), a[2].(string))
-	},
-	"zzInt": func(fr *frame, a []value) value {
-		return fr.i.newInputInt(a[0].(string), types.Int, asInt64(a[1]), asInt64(a[2]), true)
-	},
-	"zzByte": func(fr *frame, a []value) value {
-		return fr.i.newInputInt(a[0].(string), types.Uint8, 0, 0x7f, true)
-	},
-	"zzBits": func(fr *frame, a []value) value {
-		// arbitrary value of the given bit width, returned as uint64
-		w := int(asInt64(a[1]))
-		i := fr.i
-		if w >= 64 {
-			return i.newInputInt(a[0].(string), types.Uint64, 0, 0, false)
-		}
-		return i.newInputInt(a[0].(string), types.Uint64, 0, int64((uint64(1)<<uint(w))-1), true)
-	},
-	"zzBool": func(fr *frame, a []value) value { return fr.i.newInputBool(a[0].(string)) },
-	"zzChoice": func(fr *frame, a []value) value {
-		i := fr.i
-		n := asInt64(a[1])
-		v := i.newInputInt(a[0].(string), types.Int, 0, n-1, true)
-		return i.concretize(v)
-	},
-	"zzAssume": func(fr *frame, a []value) value {
-		fr.i.assume(fr.i.boolTerm(a[0]), "zzAssume")
-		return nil
-	},
-	"zzAssert": func(fr *frame, a []value) value {
-		i := fr.i
-		i.top = fr.caller
-		ok := false
-		switch c := a[0].(type) {
-		case bool:
-			ok = c
-		case symBool:
-			ok = i.branch(c.t)
-		}
-		if !ok {
-			panic(stop{kind: "violation", id: a[1].(string), msg: "assertion " + a[1].(string) + " fails"})
-		}
-		return nil
-	},
-	"zzFail": func(fr *frame, a []value) value {
-		fr.i.top = fr.caller
-		panic(stop{kind: "violation", id: a[0].(string), msg: "reached zzFail " + a[0].(string)})
-	},
-	"zzCover": func(fr *frame, a []value) value {
-		i := fr.i
-		id := a[1].(string)
-		if i.run.covers[id] || i.w.CoversHit[id] {
+var zzIntrinsics map[string]externalFn
+
+func init() {
+	zzIntrinsics = map[string]externalFn{
+		"zzString": func(fr *frame, a []value) value {
+			return fr.i.newInputString(a[0].(string), int(asInt64(a[1])), "")
+		},
+		"zzStringIn": func(fr *frame, a []value) value {
+			return fr.i.newInputString(a[0].(string), int(asInt64(a[1])), a[2].(string))
+		},
+		"zzInt": func(fr *frame, a []value) value {
+			return fr.i.newInputInt(a[0].(string), types.Int, asInt64(a[1]), asInt64(a[2]), true)
+		},
+		"zzByte": func(fr *frame, a []value) value {
+			return fr.i.newInputInt(a[0].(string), types.Uint8, 0, 0x7f, true)
+		},
+		"zzBits": func(fr *frame, a []value) value {
+			// arbitrary value of the given bit width, returned as uint64
+			w := int(asInt64(a[1]))
+			i := fr.i
+			if w >= 64 {
+				return i.newInputInt(a[0].(string), types.Uint64, 0, 0, false)
+			}
+			return i.newInputInt(a[0].(string), types.Uint64, 0, int64((uint64(1)<<uint(w))-1), true)
+		},
+		"zzBool": func(fr *frame, a []value) value { return fr.i.newInputBool(a[0].(string)) },
+		"zzChoice": func(fr *frame, a []value) value {
+			i := fr.i
+			n := asInt64(a[1])
+			v := i.newInputInt(a[0].(string), types.Int, 0, n-1, true)
+			return i.concretize(v)
+		},
+		"zzAssume": func(fr *frame, a []value) value {
+			fr.i.assume(fr.i.boolTerm(a[0]), "zzAssume")
 			return nil
-		}
-		hit := false
-		switch c := a[0].(type) {
-		case bool:
-			hit = c
-		case symBool:
-			hit = i.feasible(c.t)
-		}
-		if hit {
-			i.run.covers[id] = true
-		}
-		return nil
-	},
-	"zzNote": func(fr *frame, a []value) value {
-		i := fr.i
-		v := a[1]
-		if it, ok := v.(iface); ok {
-			v = it.v
-		}
-		switch x := v.(type) {
-		case symStr, symInt, symBool:
-			i.run.notes[a[0].(string)] = x
-		default:
-			i.run.notes[a[0].(string)] = describeValue(v)
-		}
-		return nil
-	},
-	"zzConcrete": func(fr *frame, a []value) value {
-		// fixes a string by forking over its values
-		return fr.i.concStr(a[0])
-	},
-	"zzIsSymbolic": func(fr *frame, a []value) value { return true },
-	"zzBound": func(fr *frame, a []value) value {
-		if fr.i.w.Cfg.Tier == "thorough" {
-			return a[2]
-		}
-		return a[1]
-	},
-	"zzTagOpens": func(fr *frame, a []value) value {
-		i := fr.i
-		if c, ok := a[0].(string); ok {
-			n, _ := htmlShapeNative(c)
-			return n
-		}
-		t, _ := i.L.htmlShape(i.strOf(a[0]))
-		return i.mkIntT(i.F.Zext(t, 64), types.Int)
-	},
-	"zzTagQuotes": func(fr *frame, a []value) value {
-		i := fr.i
-		if c, ok := a[0].(string); ok {
-			_, n := htmlShapeNative(c)
-			return n
-		}
-		_, q := i.L.htmlShape(i.strOf(a[0]))
-		return i.mkIntT(i.F.Zext(q, 64), types.Int)
-	},
-	// ground-truth oracles that only exist natively (real HTML5 parser); the
-	// engine side trusts the specification-level assertion next to them.
-	"zzTextRoundTrips": func(fr *frame, a []value) value { return true },
-	"zzAttrRoundTrips": func(fr *frame, a []value) value { return true },
-	"zzUnescape": func(fr *frame, a []value) value {
-		i := fr.i
-		return i.mkStr(i.L.unescapeRefs(i.strOf(a[0]), basicRefs))
-	},
-	"zzCollapse": func(fr *frame, a []value) value {
-		i := fr.i
-		if c, ok := a[0].(string); ok {
-			return strings.Join(strings.Fields(c), " ")
-		}
-		return i.mkStr(i.L.trimSpace(i.L.collapseSpaces(i.strOf(a[0]))))
-	},
-	"zzSquash": func(fr *frame, a []value) value {
-		i := fr.i
-		if c, ok := a[0].(string); ok {
-			return strings.Join(strings.Fields(c), "")
-		}
-		return i.mkStr(i.L.mapBytes(i.strOf(a[0]), map[byte]string{' ': "", '\t': "", '\n': "", '\v': "", '\f': "", '\r': ""}))
-	},
-	"zzContains": func(fr *frame, a []value) value {
-		i := fr.i
-		return i.mkBool(i.L.contains(i.strOf(a[0]), a[1].(string)))
-	},
-	"zzCountByte": func(fr *frame, a []value) value {
-		i := fr.i
-		c := asInt64(a[1])
-		return i.mkIntT(i.L.count(i.strOf(a[0]), string(rune(c))), types.Int)
-	},
+		},
+		"zzAssert": func(fr *frame, a []value) value {
+			i := fr.i
+			i.top = fr.caller
+			ok := false
+			switch c := a[0].(type) {
+			case bool:
+				ok = c
+			case symBool:
+				ok = i.branch(c.t)
+			}
+			if !ok {
+				panic(stop{kind: "violation", id: a[1].(string), msg: "assertion " + a[1].(string) + " fails"})
+			}
+			return nil
+		},
+		"zzFail": func(fr *frame, a []value) value {
+			fr.i.top = fr.caller
+			panic(stop{kind: "violation", id: a[0].(string), msg: "reached zzFail " + a[0].(string)})
+		},
+		"zzCover": func(fr *frame, a []value) value {
+			i := fr.i
+			id := a[1].(string)
+			if i.run.covers[id] || i.w.CoversHit[id] {
+				return nil
+			}
+			hit := false
+			switch c := a[0].(type) {
+			case bool:
+				hit = c
+			case symBool:
+				hit = i.feasible(c.t)
+			}
+			if hit {
+				i.run.covers[id] = true
+			}
+			return nil
+		},
+		"zzNote": func(fr *frame, a []value) value {
+			i := fr.i
+			v := a[1]
+			if it, ok := v.(iface); ok {
+				v = it.v
+			}
+			switch x := v.(type) {
+			case symStr, symInt, symBool:
+				i.run.notes[a[0].(string)] = x
+			default:
+				i.run.notes[a[0].(string)] = describeValue(v)
+			}
+			return nil
+		},
+		"zzConcrete": func(fr *frame, a []value) value {
+			// fixes a string by forking over its values
+			return fr.i.concStr(a[0])
+		},
+		"zzIsSymbolic": func(fr *frame, a []value) value { return true },
+		"zzBound": func(fr *frame, a []value) value {
+			if fr.i.w.Cfg.Tier == "thorough" {
+				return a[2]
+			}
+			return a[1]
+		},
+		"zzTagOpens": func(fr *frame, a []value) value {
+			i := fr.i
+			if c, ok := a[0].(string); ok {
+				n, _ := htmlShapeNative(c)
+				return n
+			}
+			t, _ := i.L.htmlShape(i.strOf(a[0]))
+			return i.mkIntT(i.F.Zext(t, 64), types.Int)
+		},
+		"zzTagQuotes": func(fr *frame, a []value) value {
+			i := fr.i
+			if c, ok := a[0].(string); ok {
+				_, n := htmlShapeNative(c)
+				return n
+			}
+			_, q := i.L.htmlShape(i.strOf(a[0]))
+			return i.mkIntT(i.F.Zext(q, 64), types.Int)
+		},
+		// ground-truth oracles that only exist natively (real HTML5 parser); the
+		// engine side trusts the specification-level assertion next to them.
+		"zzTextRoundTrips": func(fr *frame, a []value) value { return true },
+		"zzAttrRoundTrips": func(fr *frame, a []value) value { return true },
+		"zzUnescape": func(fr *frame, a []value) value {
+			i := fr.i
+			return i.mkStr(i.L.unescapeRefs(i.strOf(a[0]), basicRefs))
+		},
+		"zzCollapse": func(fr *frame, a []value) value {
+			i := fr.i
+			if c, ok := a[0].(string); ok {
+				return strings.Join(strings.Fields(c), " ")
+			}
+			return i.mkStr(i.L.trimSpace(i.L.collapseSpaces(i.strOf(a[0]))))
+		},
+		"zzShared": func(fr *frame, a []value) value {
+			i := fr.i
+			if i.race == nil {
+				i.race = newRaceTrace()
+				for g, cell := range i.globals {
+					if g.Pkg != nil && pathInterpretable(g.Pkg.Pkg.Path()) && !strings.HasPrefix(g.Name(), "init$") {
+						i.markShared(cell, g.Type(), g.Pkg.Pkg.Name()+"."+g.Name(), 0)
+					}
+				}
+			}
+			it := a[1].(iface)
+			i.markShared(it, nil, a[0].(string), 0)
+			return nil
+		},
+		"zzParallel": func(fr *frame, a []value) value {
+			i := fr.i
+			if i.race == nil {
+				i.race = newRaceTrace()
+			}
+			i.race.active = true
+			call(i, fr, token.NoPos, a[0], nil)
+			call(i, fr, token.NoPos, a[0], nil)
+			i.race.active = false
+			cands := i.raceCandidates()
+			i.run.notes["shared_locations"] = len(i.race.shared)
+			i.run.notes["shared_accesses"] = i.race.nEvents
+			if len(cands) > 0 {
+				var lst []any
+				for k, c := range cands {
+					if k >= 6 {
+						break
+					}
+					lst = append(lst, c.Location+": "+c.Write+" / "+c.Other)
+				}
+				i.run.notes["race_candidates"] = lst
+				i.top = fr.caller
+				panic(stop{kind: "violation", id: "C09.race", msg: "unordered conflicting accesses to " + cands[0].Location + ": " + cands[0].Write + " / " + cands[0].Other})
+			}
+			return nil
+		},
+		"zzSquash": func(fr *frame, a []value) value {
+			i := fr.i
+			if c, ok := a[0].(string); ok {
+				return strings.Join(strings.Fields(c), "")
+			}
+			return i.mkStr(i.L.mapBytes(i.strOf(a[0]), map[byte]string{' ': "", '\t': "", '\n': "", '\v': "", '\f': "", '\r': ""}))
+		},
+		"zzContains": func(fr *frame, a []value) value {
+			i := fr.i
+			return i.mkBool(i.L.contains(i.strOf(a[0]), a[1].(string)))
+		},
+		"zzCountByte": func(fr *frame, a []value) value {
+			i := fr.i
+			c := asInt64(a[1])
+			return i.mkIntT(i.L.count(i.strOf(a[0]), string(rune(c))), types.Int)
+		},
+	}
 }
 
 // eqnilVZero: is v the zero value of t?
